@@ -561,3 +561,138 @@ pub fn pick(i: u16, len: usize) -> usize {
         ((i as usize) * len) >> 16
     }
 }
+
+pub fn fuzz_enabled() -> bool {
+    std::env::var("VERIF_FUZZ").map(|v| v != "0").unwrap_or(true)
+}
+
+/// Engine Z: a coverage-guided campaign (libFuzzer through cargo-fuzz, see /verif/fuzz) over the
+/// JSON text of an engine's cases. The fuzz target carries its own oracle; here every crash input
+/// is re-judged by the property's own engine `e` (so a crash that belongs to another property's
+/// monitor is not attributed to this one), minimised by deleting operations, and written as a
+/// replay file. Afterwards the whole corpus the fuzzer kept (the coverage-distinct inputs) is run
+/// through `e` in this process, which gives the evaluation / non-trivial counts of the stage.
+/// An unavailable fuzz toolchain is recorded, not reported as a violation.
+pub fn fuzz_stage<E: Engine>(e: &E, prop: &str, target: &str, runs: u64, seed: u64) -> Outcome {
+    let t0 = Instant::now();
+    let mut stats = Stats::default();
+    let out = format!("{}/harness/target/fuzz-out/{prop}-{target}", verif_dir());
+    let _ = std::fs::remove_dir_all(&out);
+    let r = std::process::Command::new(format!("{}/fuzz/run.sh", verif_dir()))
+        .args([target, &runs.to_string(), &seed.max(1).to_string(), &out])
+        .output();
+    let line = match &r {
+        Ok(o) => String::from_utf8_lossy(&o.stdout).lines().filter(|l| l.starts_with("FUZZ ")).last().unwrap_or("").to_string(),
+        Err(_) => String::new(),
+    };
+    let field = |k: &str| -> Option<u64> { line.split_whitespace().find_map(|w| w.strip_prefix(&format!("{k}="))).and_then(|v| v.parse().ok()) };
+    let Some(execs) = field("execs") else {
+        eprintln!("fuzz stage {target}: not available ({})", if line.is_empty() { "no result line" } else { &line });
+        stats.add("fuzz stage unavailable", 1);
+        return Outcome { stats, failure: None, wall_s: t0.elapsed().as_secs_f64() };
+    };
+    stats.add("fuzz executions (libFuzzer)", execs);
+    stats.add("fuzz crash inputs", field("crashes").unwrap_or(0));
+    let run_one = |c: &E::Case, st: &mut Stats| -> Result<(), String> { e.run(c, st) };
+    let mut failure = None;
+    let mut files: Vec<_> = std::fs::read_dir(&out).map(|d| d.filter_map(|x| x.ok()).map(|x| x.path()).collect()).unwrap_or_default();
+    files.sort();
+    for f in files {
+        let Ok(bytes) = std::fs::read(&f) else { continue };
+        let Ok(v) = serde_json::from_slice::<Value>(&bytes) else { continue };
+        let Ok(c) = serde_json::from_value::<E::Case>(v.clone()) else { continue };
+        let mut frozen = Stats::default();
+        frozen.frozen = true;
+        match run_one(&c, &mut frozen) {
+            Ok(()) => stats.add("fuzz crash inputs judged by another property's monitor", 1),
+            Err(m) => {
+                stats.add("fuzz crash inputs violating this property", 1);
+                if failure.is_none() {
+                    let (v, m) = minimise_ops::<E>(e, v, m);
+                    let replay_path = write_replay(prop, e.name(), seed, &v, &m);
+                    failure = Some(Failure { engine: e.name().to_string(), message: m, case: v, replay_path });
+                }
+            }
+        }
+    }
+    // the corpus the fuzzer kept
+    let corpus = format!("{out}.work/corpus");
+    let mut files: Vec<_> = std::fs::read_dir(&corpus).map(|d| d.filter_map(|x| x.ok()).map(|x| x.path()).collect()).unwrap_or_default();
+    files.sort();
+    let cases: Vec<E::Case> = files
+        .iter()
+        .filter_map(|f| std::fs::read(f).ok())
+        .filter_map(|b| serde_json::from_slice::<E::Case>(&b).ok())
+        .collect();
+    stats.add("fuzz corpus inputs kept (coverage-distinct)", cases.len() as u64);
+    let threads = default_threads().max(1);
+    let merged = Mutex::new(Stats::default());
+    let fail2: Mutex<Option<(String, E::Case)>> = Mutex::new(None);
+    let mut parts: Vec<Vec<E::Case>> = (0..threads).map(|_| vec![]).collect();
+    for (i, c) in cases.into_iter().enumerate() {
+        parts[i % threads].push(c);
+    }
+    std::thread::scope(|s| {
+        for part in parts {
+            let merged = &merged;
+            let fail2 = &fail2;
+            s.spawn(move || {
+                let mut st = Stats::default();
+                for c in part.iter() {
+                    st.evaluations += 1;
+                    match e.run(c, &mut st) {
+                        Ok(()) => st.commit_case(c),
+                        Err(m) => {
+                            st.nt_flag = false;
+                            let mut f = fail2.lock().unwrap();
+                            if f.is_none() {
+                                *f = Some((m, c.clone()));
+                            }
+                        }
+                    }
+                }
+                merged.lock().unwrap().merge(st);
+            });
+        }
+    });
+    stats.merge(merged.into_inner().unwrap());
+    if failure.is_none() {
+        if let Some((m, c)) = fail2.into_inner().unwrap() {
+            let v = serde_json::to_value(&c).unwrap_or(Value::Null);
+            let (v, m) = minimise_ops::<E>(e, v, m);
+            let replay_path = write_replay(prop, e.name(), seed, &v, &m);
+            failure = Some(Failure { engine: e.name().to_string(), message: m, case: v, replay_path });
+        }
+    }
+    Outcome { stats, failure, wall_s: t0.elapsed().as_secs_f64() }
+}
+
+/// greedy minimisation of a failing JSON case: delete elements of its "ops" array while the
+/// engine still reports a violation
+fn minimise_ops<E: Engine>(e: &E, mut v: Value, mut msg: String) -> (Value, String) {
+    let fails = |v: &Value| -> Option<String> {
+        let c: E::Case = serde_json::from_value(v.clone()).ok()?;
+        let mut st = Stats::default();
+        st.frozen = true;
+        e.run(&c, &mut st).err()
+    };
+    let mut progress = true;
+    let mut budget = 600;
+    while progress && budget > 0 {
+        progress = false;
+        let n = v.get("ops").and_then(|o| o.as_array()).map(|a| a.len()).unwrap_or(0);
+        let mut i = n;
+        while i > 0 && budget > 0 {
+            i -= 1;
+            budget -= 1;
+            let mut t = v.clone();
+            t["ops"].as_array_mut().unwrap().remove(i);
+            if let Some(m) = fails(&t) {
+                v = t;
+                msg = m;
+                progress = true;
+            }
+        }
+    }
+    (v, msg)
+}
